@@ -100,6 +100,23 @@ def boundary_scenarios(work, rng, tier):
             else:
                 s.add_file("/d/e%05d" % i, gen.content(rng, "text", i % 300), mode=0o600 + i % 64, uid=i % 9, gid=i % 4)
         out.append((s, []))
+    # large directories with short names: the listing crosses 8 KiB metadata blocks, and with a name length L a
+    # header starts in the last 12 bytes of a block (continues in the next one) with probability ~ 11/(8+L)
+    for n, ln, kind in ([(700, 4, "pipe"), (900, 8, "slink"), (1000, 3, "pipe")] if tier == "quick" else
+                        [(700, 4, "pipe"), (900, 8, "slink"), (1000, 3, "pipe"), (500, 10, "slink"), (2000, 5, "pipe"), (1500, 6, "file"), (800, 1 + 6, "dir")]):
+        s = gen.Scenario(work, "b_bigdir_%d_%d_%s" % (n, ln, kind))
+        s.add_dir("/big", mode=0o750)
+        for i in range(n):
+            nm = "/big/" + ("%0*x" % (ln, i))[-ln:]
+            if kind == "pipe":
+                s.add_pipe(nm)
+            elif kind == "slink":
+                s.add_slink(nm, "t%d" % (i % 7))
+            elif kind == "dir":
+                s.add_dir(nm)
+            else:
+                s.add_file(nm, b"%d" % i)
+        out.append((s, []))
     # long names, odd characters
     s = gen.Scenario(work, "b_names")
     for nm in ["x" * 255, "y" * 256, "sp ace", 'quo"te', "back\\slash", "tab\tname", "hällö", "#hash", "-dash", "träiling "]:
